@@ -422,12 +422,20 @@ func checkChunk(in []int, k int) *viol {
 		if src.pulls != 0 {
 			return &viol{"eager-at-construction/Chunk", fmt.Sprintf("%s.Chunk(%d) pulled before the first Next", form, k)}
 		}
+		var kept [][]int
 		for j := 0; j <= len(want)+2; j++ {
 			c, ok := next()
+			// a chunk that has been handed out stays what it was: a consumer may keep it (Collect does)
+			for i, kc := range kept {
+				if !eqInts(kc, want[i]) {
+					return &viol{"chunk-overwritten/Chunk", fmt.Sprintf("%s.Chunk(%d) on %v: chunk #%d was %v when handed out and reads %v after %d further Next calls", form, k, in, i, want[i], kc, j-i)}
+				}
+			}
 			if j < len(want) {
 				if !ok || !eqInts(c, want[j]) {
 					return &viol{"wrong-output/Chunk", fmt.Sprintf("%s.Chunk(%d) on %v: chunk #%d = %v (ok=%v), want %v", form, k, in, j, c, ok, want[j])}
 				}
+				kept = append(kept, c)
 				lim := (j + 1) * k
 				if lim > len(in) {
 					lim = len(in) + 1
